@@ -155,7 +155,7 @@ func printSummary(e *sym.Engine, d time.Duration) {
 	}
 	sort.Strings(labels)
 	fmt.Println("reach:", strings.Join(labels, " "))
-	fmt.Println("repo functions executed:", len(e.Funcs))
+	fmt.Println("repo functions executed:", len(e.Funcs), " world rebuilds:", s.WorldRebuilds)
 	for _, v := range e.Violations {
 		fmt.Printf("CEX %s %s:%s at %s: %s\n", v.Harness, v.Kind, v.Label, v.Site, v.Msg)
 		for _, d := range v.Draws {
